@@ -57,6 +57,8 @@ pub struct Probe {
     /// an (S) evaluation took place since the deadline was learnt
     probed_interval: bool,
     pub carry: Vec<TxRec>,
+    /// a route of the interface expired between the poll_at answer and the poll being judged
+    pub route_expired_in_between: bool,
     pub out: CaseOut,
     reported: bool,
 }
@@ -74,6 +76,7 @@ pub fn new_probe() -> Option<Probe> {
             last_now: 0,
             probed_interval: false,
             carry: Vec::new(),
+            route_expired_in_between: false,
             out: CaseOut::default(),
             reported: false,
         })
@@ -258,7 +261,9 @@ impl Probe {
         let mut k = kinds.clone();
         k.sort();
         k.dedup();
-        let sig = format!("S:{}:{}", kind_d, k.join("+"));
+        // a route that expires while a socket waits for a neighbor changes the next hop (and with it
+        // the answer of has_neighbor) without any event: its own signature
+        let sig = format!("S:{}:{}{}", kind_d, k.join("+"), if self.route_expired_in_between { ":route-expired-in-between" } else { "" });
         let desc = format!(
             "driver {}: Interface::poll_at answered {:?} at t={}us; with no frame received and no socket or interface call in between, the {} poll at t={}us transmitted {} frame(s) [{}]: {} ; sockets: {}",
             self.driver,
